@@ -54,14 +54,6 @@ pub(super) fn end_stream_decision(stream: &Stream) -> EndStreamAction {
             EndStreamAction::ForwardTerminated
         } else if !stream.context.keep_alive_backend {
             EndStreamAction::CloseDelimited
-        } else if !stream.back.consumed {
-            // The backend went away mid-response but not a single byte of that
-            // response reached the client yet: a forced termination would drop
-            // the unsent head and leave the client without any answer (an H1
-            // client would only see the connection closed by the frontend
-            // timer). Answer 502 instead, like the "no response" case below
-            // and like the timeout arms, which use the same `back.consumed` test.
-            EndStreamAction::SendDefault(502)
         } else {
             EndStreamAction::ForwardUnterminated
         }
